@@ -133,7 +133,7 @@ Proof.
   cbv zeta. cbn [fst snd].
   pose proof (pend_in_diff_header s D) as Hp.
   split; [reflexivity|]. split; [|discriminate]. intros _.
-  unfold cnt. rewrite cnt0_wfh.
+  unfold cnt. rewrite cnt0_wfh, cnt0_emit.
   destruct (starts_with (lit "deleted file mode "%string) l);
     (match goal with |- S (cnt0 ?x) + pend ?y = _ =>
        change (cnt0 x) with (cnt0 s); change (pend y) with (pend s) end; lia).
@@ -146,7 +146,7 @@ Proof.
   match goal with |- context [match ?u with Some _ => _ | None => _ end] => destruct u as [[p ev]|] end;
     [|declined HI Hs].
   cbn [fst snd]. split; [reflexivity|]. split; [|discriminate]. intros _.
-  unfold cnt. rewrite cnt0_wfh, cnt0_paint.
+  unfold cnt. rewrite cnt0_wfh, cnt0_emit, cnt0_paint.
   match goal with |- S (cnt0 ?x) + pend ?y = _ =>
     change (cnt0 x) with (cnt0 s); change (pend y) with (pend s) end. lia.
 Qed.
@@ -158,7 +158,7 @@ Proof.
   match goal with |- context [match ?u with Some _ => _ | None => _ end] => destruct u as [p|] end;
     [|declined HI Hs].
   cbv zeta. cbn [fst snd]. split; [reflexivity|]. split; [|discriminate]. intros _.
-  unfold cnt. rewrite cnt0_wfh, cnt0_paint.
+  unfold cnt. rewrite cnt0_wfh, cnt0_emit, cnt0_paint.
   match goal with |- S (cnt0 ?x) + pend ?y = _ =>
     change (cnt0 x) with (cnt0 s); change (pend y) with (pend s) end. lia.
 Qed.
